@@ -357,9 +357,14 @@ class Conic(Quadric):
         y = Point(c1 * a1 - c2 * a2, copy=False)
 
         conic = cls.from_points(a, b, c, d, x)
-        if np.all(np.isreal(conic.array)):
-            return conic
-        return cls.from_points(a, b, c, d, y)
+        if not np.all(np.isreal(conic.array)):
+            return cls.from_points(a, b, c, d, y)
+        if conic.is_degenerate:
+            # a pair of lines: prefer the conic through the other touching point if that one is a proper real conic
+            other = cls.from_points(a, b, c, d, y)
+            if np.all(np.isreal(other.array)) and not other.is_degenerate:
+                return other
+        return conic
 
     @classmethod
     def from_foci(cls, f1: Point, f2: Point, bound: Point) -> Conic:
